@@ -1,5 +1,5 @@
 (* Executable correspondence + monitor for the C13 cases written by harness/cmd/c13. *)
-From Verif Require Import Base.CaseCheck Swap.Swap.
+From Verif Require Import Base.CaseCheck Swap.Swap Swap.Flag.
 
 Definition res_eqb (a b : res) : bool :=
   match a, b with
@@ -69,6 +69,9 @@ Inductive scase :=
    processor node; posok: every record reached the destination once, in order, with exactly one stamp
    per processor of the chain in chain order, and the running flags are right *)
 | SChain (per : list (list nev * list (bool * option res) * list nat * nat)) (posok hung : bool)
+(* service side, operation histories (coq/Swap/Flag.v): per processor instance of the pipeline the
+   operations that concern it and what the real processor.Service / lifecycle.Service answered *)
+| SFlag (per : list (list fop * list fobs)) (hung : bool)
 (* engine v2: ReconfigureProcessor is the constant "not live-reconfigurable" answer *)
 | SV2 (sentinel unchanged : bool).
 
@@ -90,5 +93,8 @@ Definition chk (c : scase) : nat :=
       code true (forallb (fun p => match p with (chron, results, acks, taken) =>
                                      mon chron results acks taken posok hung true end) per
                  && posok && negb hung)
+  | SFlag per hung =>
+      code (forallb (fun p => list_eqb fobs_eqb (frun (fst p)) (snd p)) per)
+           (forallb (fun p => fmon (fst p) (snd p)) per && negb hung)
   | SV2 sentinel unchanged => code (sentinel && unchanged) (sentinel && unchanged)
   end.
